@@ -39,7 +39,7 @@ def addCols (m : Migration) : List ColDef → M Migration
   | [] => pure m
   | c :: rest => do
     let (col, idxs) := column c
-    let m1 ← m.addColumn "" col false
+    let m1 ← m.addColumn "" col false true
     let m2 ← addIdxs m1 "" idxs
     addCols m2 rest
 
@@ -62,7 +62,7 @@ def step (m : Migration) : Stmt → M Migration
   | .dropTable _ => pure m                      -- DROP TABLE is not handled by the walker
   | .addColumn t c _ => do
     let (col, idxs) := column c
-    let m ← m.addColumn (pgName t) col false
+    let m ← m.addColumn (pgName t) col false true
     addIdxs m (pgName t) idxs
   | .dropColumn t c => m.removeColumn (pgName t) (pgName c)
   | .renameColumn t o n => m.renameColumn (pgName t) (pgName o) (pgName n)
@@ -76,6 +76,14 @@ def step (m : Migration) : Stmt → M Migration
     m.addIndex "" { name := pgName name, action := .add, typ := if uniq then .unique else .none, cols := cols.map pgName }
   | .dropIndex _ name => m.removeIndex "" (pgName name)
   | .commentOn t c text => m.addComment (pgName t) c text
+  -- `AlterTableAlterColumnType`: a `modify` column carrying the new type only
+  | .alterType t c typ => m.addColumn (pgName t) { name := pgName c, action := .modify, cur := { typ := some typ } } false true
+  -- `AlterTableSetDefault`: a `modify` column carrying the default option only (no type)
+  | .setDefault t c d =>
+    m.addColumn (pgName t) { name := pgName c, action := .modify,
+                             cur := { typ := none, opts := [{ kind := .default, dflt := .raw (defaultCanon d), hasExpr := false }] } } false true
+  -- `AlterTableDropNotNull`: NOT NULL is not recorded by this reader, nothing to change (fix FX-pg-drop-not-null)
+  | .dropNotNull _ _ => pure m
   | _ => .error "PARSE: statement rejected by the postgres grammar"
 where
   toLowerAsciiS (s : String) : String := String.ofList (s.toList.map Char.toLower)
